@@ -20,6 +20,11 @@ from .C15 import defgrad
 
 PROP = "C09"
 
+
+def sig12(x):
+    """Twelve significant digits (values derived inside run() from a possibly re-scaled document)."""
+    return float(f"{float(x):.12g}")
+
 EVIDENCE = {
     "probes_expected": ["affine-field-checked", "uniform-F-checked", "curve-y-checked", "curve-x-checked", "twin-compared", "history-immutable-checked", "distorted-mesh", "curved-tri6", "fault:solver_inexact", "material-curve-checked", "load-unload", "clamp-released-on-same-step", "x0-toplevel-container", "paused-by-callback-then-evaluated-again"],
     "clauses_sampled_only": ["'material-level uniaxial, planar and biaxial curves agree with the same analytic stresses' (umat.view()) is a pure function of the material; it is evaluated once per run as sampling"],
@@ -121,7 +126,7 @@ def generate(seed, tier, k):
     if r.random() < 0.12:
         # another model of the same kind was post-processed earlier in the process
         doc["prelude"] = [r.choice(["extrapolate", "extrapolate", "project"])]
-    return doc
+    return gen.maybe_units(doc)
 
 
 # ----------------------------------------------------------------------------------------
@@ -241,7 +246,7 @@ def simulate_release(doc, log):
     step.boundaries.pop("left-yz", None)  # the clamp of the held end face (no symmetry plane there)
     vals = dd["steps"][0]["ramp"][0]["values"]
     last = vals[-1]
-    new_vals = [round(0.6 * last, 6), round(1.1 * last, 6), round(last, 6)]
+    new_vals = [sig12(0.6 * last), sig12(1.1 * last), sig12(last)]
     dd["steps"][0]["ramp"][0]["values"] = new_vals
     new = w._build_step(dd["steps"][0])
     step.ramp = new.ramp
@@ -345,7 +350,7 @@ def run(doc, log):
             last = 0.0
             for v in vals:
                 if r.random() < 0.6:
-                    out.append(round(last + (v - last) * r.uniform(0.3, 0.7), 6))
+                    out.append(sig12(last + (v - last) * r.uniform(0.3, 0.7)))
                 out.append(v)
                 last = v
             rp["values"] = out
@@ -362,7 +367,7 @@ def run(doc, log):
             top = orig[-1] if orig[-1] != 0 else 1.0
             for rp, ro in zip(d2["steps"][0]["ramp"][1:], doc["steps"][0]["ramp"][1:]):
                 ratio = (ro["values"][-1] / top) if top else 0.0
-                rp["values"] = [round(v * ratio, 6) for v in first]
+                rp["values"] = [sig12(v * ratio) for v in first]
         log2 = EventLog()
         w2, eng2, mon2, job2, exc2 = simulate(d2, log2, monitors=True)
         if exc2 is not None:
@@ -404,6 +409,10 @@ def run(doc, log):
             got = np.asarray(got, dtype=float)
             ref = np.asarray(ref)
             fin = np.isfinite(got)
+            if not fin.all():
+                log.count("material-curve-nan-points", int((~fin).sum()))
+                if np.all(np.isfinite(ref)) and (~fin).sum() > 0.25 * len(got):
+                    raise Violation(PROP, "material-curve", f"umat.view() {name} curve is NaN at {int((~fin).sum())} of {len(got)} stretches in [{lo}, {hi}] where the analytic solution exists", site=f"view.{name}.nan")
             e = float(np.abs(got[fin] - ref[fin]).max()) if fin.any() else 0.0
             # felupe solves the lateral stretch with scipy.optimize.root at its default tolerance;
             # at strong compression the stress is very sensitive to it
